@@ -314,16 +314,16 @@ M("C15", "twin: dict reordered", S, "v2patterns.py", "    '0W'   : \"WW\",\n    
 # =============================================================================== C16
 M("C16", "__le__ uses <", F, "setuptools_v65_version.py", "        return self._key <= other._key", "        return self._key < other._key", "__le__")
 M("C16", "__gt__ uses >=", F, "setuptools_v65_version.py", "        return self._key > other._key", "        return self._key >= other._key", "__gt__")
-M("C16", "legacy epoch 0", F, "setuptools_v65_version.py", "    epoch = -1\n\n    # This scheme", "    epoch = 0\n\n    # This scheme", "legacy epoch")
+M("C16", "legacy epoch 0", F, "setuptools_v65_version.py", "    epoch = -1\n\n    # This scheme", "    epoch = 0\n\n    # This scheme", "key of a legacy version")
 M("C16", "Infinity.__lt__ True", F, "setuptools_v65_version.py", "class InfinityType:\n    def __repr__(self) -> str:\n        return \"Infinity\"\n\n    def __hash__(self) -> int:\n        return hash(repr(self))\n\n    def __lt__(self, other: object) -> bool:\n        return False",
   "class InfinityType:\n    def __repr__(self) -> str:\n        return \"Infinity\"\n\n    def __hash__(self) -> int:\n        return hash(repr(self))\n\n    def __lt__(self, other: object) -> bool:\n        return True", "InfinityType.__lt__")
-M("C16", "post absent sorts after", F, "setuptools_v65_version.py", "    if post is None:\n        _post: PrePostDevType = NegativeInfinity", "    if post is None:\n        _post: PrePostDevType = Infinity", "_post")
-M("C16", "dev-only rule ignores post", F, "setuptools_v65_version.py", "    if pre is None and post is None and dev is not None:", "    if pre is None and dev is not None:", "_pre")
-M("C16", "key tuple order changed", F, "setuptools_v65_version.py", "    return epoch, _release, _pre, _post, _dev, _local", "    return epoch, _release, _post, _pre, _dev, _local", "tuple order")
+M("C16", "post absent sorts after", F, "setuptools_v65_version.py", "    if post is None:\n        _post: PrePostDevType = NegativeInfinity", "    if post is None:\n        _post: PrePostDevType = Infinity", "_cmpkey")
+M("C16", "dev-only rule ignores post", F, "setuptools_v65_version.py", "    if pre is None and post is None and dev is not None:", "    if pre is None and dev is not None:", "_cmpkey")
+M("C16", "key tuple order changed", F, "setuptools_v65_version.py", "    return epoch, _release, _pre, _post, _dev, _local", "    return epoch, _release, _post, _pre, _dev, _local", "_cmpkey")
 M("C16", "parse falls back on any ValueError", F, "setuptools_v65_version.py", "    try:\n        return Version(version)\n    except InvalidVersion:\n        return LegacyVersion(version)", "    try:\n        return Version(version)\n    except Exception:\n        return LegacyVersion(version)", "fallback")
 M("C16", "regex loses the end anchor", F, "setuptools_v65_version.py", "re.compile(r\"^\\s*\" + VERSION_PATTERN + r\"\\s*$\", re.VERBOSE | re.IGNORECASE)", "re.compile(r\"^\\s*\" + VERSION_PATTERN + r\"\\s*\", re.VERBOSE | re.IGNORECASE)", "anchored")
 M("C16", "tags sorted as strings", F, "cli.py", "version_tags.sort(key=version.parse_version, reverse=True)", "version_tags.sort(key=str, reverse=True)", "sorted without")
-M("C16", "trailing zeros kept", F, "setuptools_v65_version.py", "    _release = tuple(reversed(list(itertools.dropwhile(lambda x: x == 0, reversed(release)))))", "    _release = tuple(release)", "release normalisation")
+M("C16", "trailing zeros kept", F, "setuptools_v65_version.py", "    _release = tuple(reversed(list(itertools.dropwhile(lambda x: x == 0, reversed(release)))))", "    _release = tuple(release)", "_cmpkey")
 
 # =============================================================================== C17
 M("C17", "next_id only without --tag", F, "v2version.py", "    cur_vinfo = cur_vinfo._replace(bid=lexid.next_id(cur_vinfo.bid))\n    return _reset_rollover_fields", "    if not tag:\n        cur_vinfo = cur_vinfo._replace(bid=lexid.next_id(cur_vinfo.bid))\n    return _reset_rollover_fields", "condition")
